@@ -14,16 +14,20 @@ vars == <<toks, pend>>
 (* VAR reads the global counter `cnt`, BUMP increments it through `modify` and returns it: a later   *)
 (* sibling must not disturb the value an earlier operand already produced                            *)
 (* ELEM / FLD read a list element / an object field, PUT / FBUMP write that very slot and return it    *)
-IntProds == {"L", "add", "sub", "mul", "call2", "call3", "orp", "orn", "rec", "neg", "VAR", "BUMP", "ELEM", "PUT", "FLD", "FBUMP"}
+(* idxcall: `(mkl(n))[<index>]` - the indexed expression is evaluated before the subscript; idxswap: `cur[swp()]` where swp() re-points cur *)
+IntProds == {"L", "add", "sub", "mul", "call2", "call3", "orp", "orn", "rec", "neg", "VAR", "BUMP", "ELEM", "PUT", "FLD", "FBUMP", "idxcall", "idxswap"}
 (* KT / KF are the literals true / false (no side effect): folding must not drop a sibling *)
 (* BELEM / BFLD read a bool out of a list element / an object field (what reaches the operator or the condition is a view) *)
-BoolProds == {"LT", "LF", "and", "or", "lt", "eq", "not", "andor", "KT", "KF", "BELEM", "BFLD"}
+(* orself / andself: `a || self.noisy()` / `a && self.noisy()` inside a method (the right operand names no variable) *)
+BoolProds == {"LT", "LF", "and", "or", "lt", "eq", "not", "andor", "KT", "KF", "BELEM", "BFLD", "orself", "andself"}
 IxProds == {"LI0", "LI1"}
 (* listself / callself / sumself: a zero-argument recursive call `self()` as a later element / argument / operand, after a plain *)
 (* name (the earlier value is on the operand stack while the callee runs)                                                      *)
 RootProds == {"printi", "printb", "list3", "call4", "ifb", "assign2", "listidx", "map3", "mcall2", "listself", "callself", "sumself"}
 Kids(p) ==
-    CASE p \in {"L", "LT", "LF", "LI0", "LI1", "VAR", "BUMP", "KT", "KF", "ELEM", "PUT", "FLD", "FBUMP", "listself", "callself", "sumself", "BELEM", "BFLD"} -> <<>>
+    CASE p \in {"L", "LT", "LF", "LI0", "LI1", "VAR", "BUMP", "KT", "KF", "ELEM", "PUT", "FLD", "FBUMP", "listself", "callself", "sumself", "BELEM", "BFLD", "idxswap"} -> <<>>
+      [] p = "idxcall" -> <<"ix">>
+      [] p \in {"orself", "andself"} -> <<"bool">>
       [] p \in {"add", "sub", "mul", "call2", "lt", "eq"} -> <<"int", "int">>
       [] p = "call3" -> <<"int", "int", "int">>
       [] p = "listidx" -> <<"int", "int", "ix">>
@@ -39,7 +43,7 @@ Kids(p) ==
       [] p = "ifb" -> <<"bool">>
       [] p = "assign2" -> <<"int", "int">>
 Prods(ty) == CASE ty = "int" -> IntProds [] ty = "bool" -> BoolProds [] ty = "ix" -> IxProds [] ty = "root" -> Roots
-Leafs(ty) == CASE ty = "int" -> {"L", "VAR", "BUMP", "ELEM", "PUT", "FLD", "FBUMP"} [] ty = "bool" -> {"LT", "LF", "KT", "KF", "BELEM", "BFLD"} [] ty = "ix" -> IxProds [] ty = "root" -> {}
+Leafs(ty) == CASE ty = "int" -> {"L", "VAR", "BUMP", "ELEM", "PUT", "FLD", "FBUMP", "idxswap"} [] ty = "bool" -> {"LT", "LF", "KT", "KF", "BELEM", "BFLD"} [] ty = "ix" -> IxProds [] ty = "root" -> {}
 
 Init == toks = <<>> /\ pend = <<[ty |-> "root", d |-> 0]>>
 Choose(p) ==
@@ -72,6 +76,10 @@ Parse(ts, i) ==
              [] p = "PUT" -> Call(V("put"), <<>>)
              [] p = "FLD" -> Fld(V("box"), "n")
              [] p = "FBUMP" -> MCall(V("box"), "bump", <<>>)
+             [] p = "idxcall" -> Idx([k |-> "paren", e |-> Call(V("mkl"), <<I(i)>>)], x[1])
+             [] p = "idxswap" -> Idx(V("cur"), Call(V("swp"), <<>>))
+             [] p = "orself" -> MCall(V("box"), "orself", <<x[1]>>)
+             [] p = "andself" -> MCall(V("box"), "andself", <<x[1]>>)
              [] p = "BELEM" -> Idx(V("bcells"), V("z0"))
              [] p = "BFLD" -> Fld(V("box"), "on")
              [] p = "KT" -> B(TRUE)
@@ -125,9 +133,15 @@ Prologue ==
       [k |-> "class", n |-> "Box", export |-> FALSE, fields |-> <<[n |-> "n", ty |-> "int"], [n |-> "on", ty |-> "bool"]>>,
        ctor |-> <<[ps |-> <<>>, b |-> <<Assign(Fld(Self, "n"), "=", I(700)), Assign(Fld(Self, "on"), "=", B(FALSE))>>]>>,
        methods |-> <<[n |-> "bump", ps |-> <<>>, rt |-> "int", b |-> <<Print(S("fbump")), Assign(Fld(Self, "n"), "+", I(1)), Ret(Fld(Self, "n"))>>],
+                     [n |-> "noisy", ps |-> <<>>, rt |-> "bool", b |-> <<Print(S("noisy")), Ret(B(TRUE))>>],
+                     [n |-> "orself", ps |-> <<P("a", "bool")>>, rt |-> "bool", b |-> <<Ret(Bin("||", V("a"), MCall(Self, "noisy", <<>>)))>>],
+                     [n |-> "andself", ps |-> <<P("a", "bool")>>, rt |-> "bool", b |-> <<Ret(Bin("&&", V("a"), MCall(Self, "noisy", <<>>)))>>],
                      [n |-> "add2", ps |-> <<P("a", "int"), P("b", "int")>>, rt |-> "int",
                       b |-> <<Print(S("add2")), Ret(Bin("-", Bin("*", V("a"), I(3)), V("b")))>>]>>],
       Let("box", New("Box", <<>>)),
+      Let("mkl", Fn("mkl", <<P("n", "int")>>, "[int...]", <<Print(Bin("+", S("mkl"), V("n"))), LetT("r", "[int...]", List(<<I(40), I(41)>>)), Ret(V("r"))>>)),
+      LetT("cur", "[int...]", List(<<I(1), I(2)>>)), LetT("alt", "[int...]", List(<<I(7), I(8)>>)),
+      Let("swp", Fn("swp", <<>>, "int", <<Print(S("swp")), Modify("cur", V("alt")), Ret(I(0))>>)),
       Let("bump", Fn("bump", <<>>, "int", <<Print(S("bump")), Modify("cnt", Bin("+", V("cnt"), I(1))), Ret(V("cnt"))>>)),
       Let("lg", Fn("lg", <<P("n", "int")>>, "int", <<Print(V("n")), Ret(V("n"))>>)),
       Let("lb", Fn("lb", <<P("n", "int"), P("b", "bool")>>, "bool", <<Print(V("n")), Ret(V("b"))>>)),
